@@ -337,8 +337,10 @@ func (s *Module) defineSyncStage() error {
 			err = s.billet.Traverse(func(_ []byte, n mpt.Node, _ []byte) bool {
 				nPaths, ok := pool.TryGet(n.Hash())
 				if !ok {
-					// if this situation occurs, then it's a bug in MPT pool or Traverse.
-					panic("failed to get MPT node from the pool")
+					// Another occurrence of this node (the same node can be found by several
+					// paths) has been visited already and took all the paths known by then,
+					// this one included.
+					return false
 				}
 				pool.Remove(n.Hash())
 				childrenPaths := make(map[util.Uint256][][]byte)
